@@ -6,7 +6,19 @@ import numpy as np
 from .. import proto
 from ..core import Check, Problem, register
 
-REL_TOL = 1e-9          # relative to `scale` (values) / `scale**2` (covariances, normal equations)
+# review R2 — tolerances re-based on measurements on the clean tree (4 x 3000 generated cases, seeds 0..3, incl. the
+# near-collinear kind; the one F10 blow-up among them excluded).  Float lstsq errors grow with the conditioning of the centred
+# sensitive block, so the oracle tolerances are stated PER UNIT OF `amp` = max(1, largest exact coefficient, condition proxy)
+# (Spec.amp, computed exactly).  Measured maxima:
+#   |fit_transform / alpha=1 output - exact least-squares residual| / (scale amp)       4.1e-15
+#   |cov(output, sensitive)| / (scale^2 n amp)                                            3.6e-16
+#   normal-equation residual of the fitted beta_ / (scale^2 n amp max|beta_|)             9.1e-16
+#   |transform(new) - exact map| / (scale amp^2)                                          3.8e-15   (beta_ errors ~ eps cond^2)
+#   |transform(new) - map with the FITTED beta_| / (scale max|beta_|)                     2.9e-16
+#   |fit_transform - model transform(mean_, beta_, alpha)| / (scale max|beta_|)           1.5e-16 ; sensitive_mean_: 0
+REL_TOL = 4e-13         # values vs the exact oracle, per unit of scale*amp (new data: scale*amp^2)   (was 1e-9*scale, no amp)
+REL_TOL2 = 1e-13        # covariances / normal equations, per unit of scale^2*n*amp                   (was 1e-9)
+REL_TOL_MODEL = 3e-14   # implementation vs the Lean model / the map evaluated on the FITTED state, per unit of scale*max|beta_|
 NAMES = ["age", "b", "zip", "s0", "x1", "a", "income", "f", "c2", "g"]
 ALPHAS = ["1", "1", "1", "0", "1/4", "1/2", "3/4"]
 
@@ -133,6 +145,13 @@ class Spec:
         self.nn = len(Xn)
         vals = [abs(v) for r in X + Xn for v in r]
         self.scale = float(max([F(1)] + vals))
+        # review R2: error amplification of the least-squares problem, from exact quantities only: the largest exact
+        # coefficient and the ratio of the largest to the smallest Gram-Schmidt residual norm of the centred sensitive
+        # columns (a condition-number proxy).  Float lstsq errors grow like eps * amp; tolerances are stated per unit of amp.
+        qq = [float(fdot(q, q)) for q in basis]
+        cond = (max(qq) / min(qq)) ** 0.5 if qq else 1.0
+        self.bmax = max([1.0] + [abs(float(v)) for r in self.beta for v in r])
+        self.amp = max(1.0, self.bmax, cond)
 
     def new_out(self, beta):
         """Znew − alpha (Snew − smean) beta, as columns"""
@@ -201,7 +220,9 @@ class CHECK(Check):
             "non-trivial = at least one non-constant sensitive column")
     explanation = ("theorems over the Lean model CorrRemover for all inputs; numpy.linalg.lstsq enters only through the normal "
                    "equations (checked on every case with the fitted beta_); correspondence: sensitive_mean_, fit_transform, "
-                   "transform(train), transform(new) vs compiled driver within 1e-9*scale, both for the hand-written model (`corr.*`) "
+                   "transform(train), transform(new) vs compiled driver within 3e-14*scale*max|beta_| (oracle relations per unit of the exact "
+                   "amplification amp = max(1, max|exact beta|, condition proxy): 4e-13*scale*amp for values, 1e-13*scale^2*n*amp for "
+                   "covariances / normal equations; measured maxima 4.1e-15 / 9.1e-16 / 2.9e-16), both for the hand-written model (`corr.*`) "
                    "and for the model re-built from the lifted source (`corrsrc.*`, incl. the lookup of ids by name / position); two "
                    "different exact solutions of rank-deficient problems are pushed through the model (same output); oracle: exact "
                    "Gram-Schmidt residual and sample covariance in Fractions. Lifted-model-vs-oracle disagreements are HARNESS-ERRORs "
@@ -213,7 +234,7 @@ class CHECK(Check):
                "(`S - mean` row-wise, `.dot(beta_)` as the row-by-matrix product, np.atleast_2d as identity on 2-d blocks), list / dict "
                "comprehensions of _split_X / _create_lookup; every other shape is refused")
     assumptions = ("n >= 2 rows, at least one sensitive and one other column, all values finite",
-                   "float rounding of lstsq on rank-deficient blocks stays below 1e-9*scale")
+                   "float rounding of lstsq stays below 4e-13*scale*amp (measured <= 4.1e-15; F10 is the known exception)")
 
     # ---------------------------------------------------------------- generation
     def _val(self, rng):
@@ -225,7 +246,8 @@ class CHECK(Check):
             mz = rng.choice([1, 1, 2, 2, 3, 4])
             n = rng.choice([2, 3, 3, 4, 4, 5, 6, 7, 8, 10, 12])
             m = ms + mz
-            kind = rng.choice(["generic", "generic", "generic", "collinear", "duplicate", "constant", "onehot", "intlike"])
+            kind = rng.choice(["generic", "generic", "generic", "collinear", "duplicate", "constant", "onehot", "intlike",
+                               "nearcollinear"])
             offs = [F(rng.randint(-6, 6)) for _ in range(ms)]
             if kind == "onehot":
                 S = [[F(0)] * ms for _ in range(n)]
@@ -241,6 +263,17 @@ class CHECK(Check):
                 c0 = F(rng.randint(-3, 3))
                 for i in range(n):
                     S[i][t] = c0 + sum(co[k] * S[i][k] for k in range(ms) if k != t)
+            near = None
+            if kind == "nearcollinear" and ms >= 2:
+                # review R2: ALMOST collinear (full rank, smallest singular value ~ delta): a mutant that truncates small
+                # singular values (lstsq rcond = 1e-3, a ridge term, an early-stopped solver) survives exact collinearity
+                t = rng.randrange(ms)
+                co = [F(rng.randint(-2, 2)) for _ in range(ms)]
+                c0 = F(rng.randint(-3, 3))
+                delta = F(1, rng.choice([64, 256, 1024]))
+                near = [F(rng.choice([-1, 0, 1])) for _ in range(n)]
+                for i in range(n):
+                    S[i][t] = c0 + sum(co[k] * S[i][k] for k in range(ms) if k != t) + delta * near[i]
             if kind == "duplicate" and ms >= 2:
                 a, b = rng.sample(range(ms), 2)
                 for i in range(n):
@@ -254,7 +287,8 @@ class CHECK(Check):
             Z = []
             w = [[F(rng.randint(-2, 2), rng.choice([1, 2])) for _ in range(ms)] for _ in range(mz)]
             for i in range(n):
-                Z.append([self._val(rng) + sum(w[j][k] * S[i][k] for k in range(ms)) * rng.choice([0, 1, 1]) for j in range(mz)])
+                Z.append([self._val(rng) + sum(w[j][k] * S[i][k] for k in range(ms)) * rng.choice([0, 1, 1])
+                          + (near[i] * rng.choice([0, 1, 2]) if near is not None else 0) for j in range(mz)])
             pos = rng.sample(range(m), ms)
             if rng.random() < 0.5:
                 pos.sort()
@@ -400,8 +434,9 @@ class CHECK(Check):
     def judge(self, case, o, mo):
         sp = Spec(case)
         probs = []
-        tol = REL_TOL * sp.scale
-        tol2 = REL_TOL * sp.scale ** 2 * sp.n
+        tol = REL_TOL * sp.scale * sp.amp
+        tol2 = REL_TOL2 * sp.scale ** 2 * sp.n * sp.amp
+        tolm = REL_TOL_MODEL * sp.scale
         # ---- model vs oracle (exact) ------------------------------------------------
         if mo is not None:
             if len(mo) < 12 or "bad-op" in mo[:5] or "bad-op" in mo[10:12]:
@@ -474,22 +509,27 @@ class CHECK(Check):
         # (e) new data: same affine map (training means, fitted coefficients)
         usable = self._usable(o, sp)
         beta_impl = [[F(v) for v in r] for r in o["beta"]] if usable else None
-        bmax = max([1.0] + [abs(float(v)) for r in sp.beta for v in r])
-        if sp.rank == sp.ms or beta_impl is None:
-            beta_ref, what = sp.beta, "the least-squares coefficients"
-        else:
-            beta_ref, what = beta_impl, "the fitted beta_"
-            # rank deficient: beta_ is not unique; it must still solve the normal equations of the centred block
+        if beta_impl is not None:
+            bsc = max(1.0, max(abs(float(v)) for r in beta_impl for v in r))
+            # (e1) review R2: beta_ must solve the least-squares problem of the centred block — checked on EVERY case now
+            # (before: only on rank-deficient ones; full-rank ones were compared with the exact coefficients alone)
             nr = max(abs(float(fdot(sp.Sc[k], [sp.Z[j][i] - sum(sp.Sc[q][i] * beta_impl[q][j] for q in range(sp.ms))
                                                for i in range(sp.n)]))) for k in range(sp.ms) for j in range(sp.mz))
-            if nr > tol2 * max(1.0, max(abs(float(v)) for r in beta_impl for v in r)):
+            if nr > tol2 * bsc:
                 probs.append(Problem("property", f"beta_ does not solve the least-squares problem of the centred block (normal residual {nr:.3g})",
                                      "C15.isLstsq"))
-        exp_new = to_rows(sp.new_out(beta_ref), sp.nn)
-        d = maxdiff(o["new"], exp_new)
-        if d is None or d > tol * bmax * 4:
-            probs.append(Problem("property", f"transform(new data) differs by {d} from Znew - alpha*(Snew - training means)*{what}",
-                                 "C15.transform_affine"))
+            # (e2) transform(new) IS the affine map with the training means and the FITTED coefficients (tight: rounding only)
+            d = maxdiff(o["new"], to_rows(sp.new_out(beta_impl), sp.nn))
+            if d is None or d > tolm * bsc:
+                probs.append(Problem("property", f"transform(new data) differs by {d} from Znew - alpha*(Snew - training means)*the fitted beta_",
+                                     "C15.transform_affine"))
+        if sp.rank == sp.ms or beta_impl is None:
+            # (e3) full rank: the coefficients are unique, so the map must also agree with the EXACT least-squares coefficients;
+            # the error of beta_ grows like eps*cond^2, hence amp^2
+            d = maxdiff(o["new"], to_rows(sp.new_out(sp.beta), sp.nn))
+            if d is None or d > tol * sp.amp:
+                probs.append(Problem("property", f"transform(new data) differs by {d} from Znew - alpha*(Snew - training means)*the least-squares coefficients",
+                                     "C15.transform_affine"))
         # ---- implementation vs model --------------------------------------------------
         if mo is not None and not any(p.kind == "harness" for p in probs):
             if not usable:
@@ -501,7 +541,7 @@ class CHECK(Check):
             if "bad-op" in mo[16:19] or "bad-op" in mo[5:10]:
                 return probs + [model_problem(f"the model re-built from the lifted source rejects the fitted state: {mo[16:]}")]
             dm = max(abs(a - float(b)) for a, b in zip(o["mean"], sp.smean))
-            mean_ok = dm <= tol
+            mean_ok = dm <= tolm
             if not mean_ok:
                 probs.append(Problem("correspondence", f"sensitive_mean_ {o['mean']} (shape {o['mean_shape']}) is not the vector of column means "
                                      f"{[float(v) for v in sp.smean]}", "C15.fitMean"))
@@ -512,11 +552,11 @@ class CHECK(Check):
                 probs.append(Problem("correspondence", f"fitted beta_ violates the normal equations of (S - sensitive_mean_) by {nres:.3g} "
                                      "(hypothesis isLstsq of the theorems)", "C15.isLstsq"))
             d = maxdiff(ft, proto.p_mat(mo[13]))
-            if d is None or d > tol * bscale:
+            if d is None or d > tolm * bscale:
                 probs.append(Problem("correspondence", f"fit_transform differs from the model's transform(mean_, beta_, alpha) by {d}",
                                      "C15.transform_entry"))
             d = maxdiff(o["new"], proto.p_mat(mo[15]))
-            if d is None or d > tol * bscale:
+            if d is None or d > tolm * bscale:
                 probs.append(Problem("correspondence", f"transform(new) differs from the model's transform(mean_, beta_, alpha) by {d}",
                                      "C15.transform_new_data"))
             # the lifted model with the fitted state: normal equations of the operands lstsq is called with, transform of the
@@ -526,10 +566,10 @@ class CHECK(Check):
                 probs.append(Problem("correspondence", f"fitted beta_ violates the normal equations of the lstsq operands lifted from the source by {nres_s:.3g}",
                                      "C15.src_uncorrelated"))
             d = maxdiff(ft, proto.p_mat(mo[17]))
-            if d is None or d > tol * bscale:
+            if d is None or d > tolm * bscale:
                 probs.append(Problem("correspondence", f"fit_transform differs from the transform lifted from the source by {d}", "C15.src_alpha_blend"))
             d = maxdiff(o["new"], proto.p_mat(mo[18]))
-            if d is None or d > tol * bscale:
+            if d is None or d > tolm * bscale:
                 probs.append(Problem("correspondence", f"transform(new) differs from the transform lifted from the source by {d}",
                                      "C15.src_transform_new_data"))
             if mean_ok and lstsq_ok:
